@@ -1253,6 +1253,14 @@ class Sim:
                 raise Undefined('part select out of range')
             if hi >= s.width:
                 self.x_as_zero += 1
+                if self.oob_fill is not None:
+                    # the bits selected above the declared range are x (IEEE 1364-2005 5.2.1): zeros or ones on request
+                    self.oob_reads += 1
+                    v = (s.value >> lo) & mask(hi - lo + 1)
+                    if self.oob_fill:
+                        inside = max(0, s.width - lo)
+                        v |= mask(hi - lo + 1) & ~mask(inside)
+                    return v
             return (s.value >> lo) & mask(hi - lo + 1)
         if k == 'sysf':
             return self.eval_self(sc, e[2])
